@@ -28,6 +28,11 @@ def run(c, chk):
 
     def is_literal(r):
         ks = set(re.sub(r'\+line[0-9*]*', '', k) for k in K.get(r, ['?']))
+        if len(ks) > 1:
+            # the action branches on the matched text: literal iff every firing text yields exactly its own bytes
+            w_ = dfa.firing_rules('dq_str').get(r)
+            if w_ is not None and len(w_) == 1:
+                ks = set(re.sub(r'\+line[0-9*]*', '', k) for k in lexmodel.classes_for(lex, r, w_))
         if ks <= literal:
             return True
         if ks == {'const(10)'} and dfa.match('dq_str', b'\n')[0] == r:
@@ -97,7 +102,7 @@ def run(c, chk):
         if b in escaped:
             # escape decodes to the byte
             rr, ln = dfa.match('dq_str', escaped[b].encode('latin-1') + b'x')
-            if ln == 2 and K.get(rr) == ['byte1'] and escaped[b][1] == chr(b):
+            if ln == 2 and lexmodel.classes_for(lex, rr, escaped[b].encode('latin-1')) == ['byte1'] and escaped[b][1] == chr(b):
                 chk.ok('R5.1', 'byte %r' % ch, 'reader: opens %s (e.g. %r); writer: emits %r, which the reader decodes with %s to the byte itself'
                        % (lex.rule_name(r), w, escaped[b], lex.rule_name(rr)), sample=True)
             else:
@@ -110,7 +115,7 @@ def run(c, chk):
     for b in sorted(escaped):
         if b not in special:
             rr, ln = dfa.match('dq_str', escaped[b].encode('latin-1') + b'x')
-            if not (ln == 2 and K.get(rr) == ['byte1']):
+            if not (ln == 2 and lexmodel.classes_for(lex, rr, escaped[b].encode('latin-1')) == ['byte1']):
                 chk.fail('R5.1', 'needless-escape-wrong:%s' % chr(b), c.where(fn), 'the printer escapes %r as %r, which the reader does not decode back to that byte' % (chr(b), escaped[b]))
     chk.floor('R5.1 reader-special bytes', len(special), 2)
 
